@@ -403,10 +403,11 @@ func variadicElems(v ssa.Value) []ssa.Value {
 	return out
 }
 
-// isNothingWrittenTest: cond is `w.Header().Get(<Content-Type>) == ""`.
-func isNothingWrittenTest(v ssa.Value) bool {
+// isNothingWrittenTest: cond is `w.Header().Get(<Content-Type>) == ""` taken as true, or `... != ""` taken as false
+// (the early-return form `if ct != "" { return }`).
+func isNothingWrittenTest(v ssa.Value, taken bool) bool {
 	bo, ok := v.(*ssa.BinOp)
-	if !ok || bo.Op != token.EQL {
+	if !ok || !((bo.Op == token.EQL && taken) || (bo.Op == token.NEQ && !taken)) {
 		return false
 	}
 	x, y := bo.X, bo.Y
@@ -435,8 +436,8 @@ func isNothingWrittenTest(v ssa.Value) bool {
 }
 
 func guardedByNothingWritten(in ssa.Instruction) bool {
-	for _, cf := range condFacts(in.Block()) {
-		if cf.True && isNothingWrittenTest(cf.Cond) {
+	for _, cf := range normFacts(condFacts(in.Block())) {
+		if isNothingWrittenTest(cf.Cond, cf.True) {
 			return true
 		}
 	}
